@@ -159,6 +159,20 @@ Print Assumptions C20_schema_loader_agree.
     finding was recorded ([pinned_*], C20/SchemaPinned.v), so that a repaired tree
     does not break the build; whether the current tree still shows them is
     reported by the replay stream on every run *)
+(** acceptance equivalence: agreement of the tables row by row (no wildcard, no
+    excused row) implies that they accept the same mechanism definitions — for
+    all tables; and the current tables do agree that way once the value syntax of
+    durations (C20-F6) is set aside *)
+Theorem C20_tables_agree_accept_equal :
+  forall s l, strict_ok s l = true -> forall p, accepts s p = accepts l p.
+Proof. exact strict_ok_accepts. Qed.
+Print Assumptions C20_tables_agree_accept_equal.
+
+Theorem C20_schema_loader_accept_equal :
+  forall p, accepts (erase_classes schema_tbl) p = accepts (erase_classes loader_tbl) p.
+Proof. exact schema_loader_accept_equal. Qed.
+Print Assumptions C20_schema_loader_accept_equal.
+
 Theorem C20_F1_refuted :
   exists r, In r (all_rows pinned_schema_tbl pinned_loader_tbl) /\ guard_F1 false false r = true /\
             row_agrees pinned_schema_tbl pinned_loader_tbl r = false.
